@@ -344,6 +344,23 @@ def struct_aliases(fn):
                     v, hops = std_unwrap(a[0]), hops + 1
                 if v.kind == "DeclRefExpr" and v.get("local") and hops > 0:
                     out[d["d"]] = v.d["d"]
+                elif v.kind == "DeclRefExpr" and v.get("local") and hops == 0 and (d.get("n") or "").find(".") > 0:
+                    # the scalar that stands for one field of a scalar-replaced aggregate (`ret.sb_base`), initialised from
+                    # the local the aggregate was built from
+                    out[d["d"]] = v.d["d"]
+    # ... or assigned at each of several returns of the folded helper: an alias when every non-constant value is the same local
+    asg = {}
+    for x in fn.all_nodes():
+        if x.kind == "BinaryOperator" and x.op == "=" and x.d.get("synthetic"):
+            l = std_unwrap(x.children[0])
+            r = std_unwrap(x.children[1])
+            if l.kind == "DeclRefExpr" and l.d.get("field_of") is not None:
+                asg.setdefault(l.d["d"], []).append(r)
+    for did, vals in asg.items():
+        srcs = {v.d["d"] for v in vals if v.kind == "DeclRefExpr" and v.get("local")}
+        others = [v for v in vals if not (v.kind == "DeclRefExpr" and v.get("local"))]
+        if len(srcs) == 1 and not others and did not in out:
+            out[did] = next(iter(srcs))
     return out
 
 
@@ -425,12 +442,15 @@ def check_fallible(ctx, rule, unit, fn, calls, label, allowed_in_null=()):
                 for x in fn.node(blk.cond).walk():
                     cond_ids.add(x.id)
 
-        cur_alias = [None]      # a local that holds a plain copy of the result on the current path (`result = new_p;`)
+        cur_alias = [None]      # locals that hold a plain copy of the result on the current path (`result = new_p;`)
 
         def is_x(n):
             if place_of(n, alias) == place:
                 return True
-            return cur_alias[0] is not None and place_of(n, alias) == (cur_alias[0], None)
+            if not cur_alias[0]:
+                return False
+            pn = place_of(n, alias)
+            return pn is not None and pn[1] is None and pn[0] in cur_alias[0]
 
         def harmless_read(n):
             """The read only feeds arithmetic whose result goes into a local (or a field of a local): nothing is
@@ -444,6 +464,8 @@ def check_fallible(ctx, rule, unit, fn, calls, label, allowed_in_null=()):
                     return place_of(q.children[0]) is not None
                 if q.kind == "DeclStmt":
                     return True
+                if q.kind == "InlinedReturn":
+                    return True         # handed back by a folded helper (inside the aggregate it returns): judged where it is used
                 q, hops = fn.parent(q), hops + 1
             return False
 
@@ -468,9 +490,13 @@ def check_fallible(ctx, rule, unit, fn, calls, label, allowed_in_null=()):
                 if lp is not None and lp[1] is None and lp != place:
                     cur_alias[0] = al
                     if s is not None and is_x(n.children[1]) and std_unwrap(n.children[1]).kind in ("DeclRefExpr", "MemberExpr"):
-                        return [(s, lp[0])]
-                    if al is not None and lp[0] == al:
-                        return [(s, None)]
+                        return [(s, (al or frozenset()) | {lp[0]})]
+                    if s in ("null", "null-returned") and std_unwrap(n.children[1]).cv() == 0:
+                        # on the path on which the result is null, a local set to 0 holds the same value (the `{n, 0, 0}` a
+                        # folded helper returns on failure)
+                        return [(s, (al or frozenset()) | {lp[0]})]
+                    if al and lp[0] in al:
+                        return [(s, al - {lp[0]})]
             cur_alias[0] = al
             return [(r, al) for r in transfer0(n, s)]
 
